@@ -21,6 +21,17 @@ variant and are proved in full: no excluded region; the only hypotheses are
 The correspondence check holds the staged code to this variant on every case; a probe read that no
 longer behaves like the list of rows is reported as a violation (regression), never excused.
 
+Outside the model (checked by the Python list-of-rows oracle only): the `dtype` attribute; the cell
+dimension that `shape` appends for multi-dimensional cells and `flatten()` of such cells (cells are
+atomic here: the model's `flatten`/`shape`/`size` count cells); the integer dtype of index arrays
+(indices are unbounded integers here — finding `getitem-narrow-int-index-overflow`: int8/int16 index
+arrays with negative entries overflow in `_handle_negative_indices`); the shape of a paired result
+(a flat list here — finding `getitem-paired-one-element-column-list`: `a[[0,1],[2]]` comes back 2×2).
+For these two input classes `getItemF` describes the proposed repair
+(`C05-paired-broadcast-narrow-int.diff`), and the harness excuses the staged code under those keys only.
+Outside the property's quantifier (positive row lengths): on an array without any cell `shape`
+raises `IndexError` (`lengths[0]`; `shape`/`specShape` model exactly that).
+
 **Pre-fix variant** (`getItem` = `getItemV false`, the tree before the `fix:` commit that applied
 `C05-ra-reads.diff`), `namespace C05.PreFix`: kept as the record of why the repair was needed — the
 full statements `C05_…_full` are refuted on concrete witnesses (`…_counterexample`, by `decide`) and
@@ -43,12 +54,12 @@ theorem rows_ofRows {α : Type} (rs : List (List α)) : rows (ofRows rs) = rs :=
 /-- a well-formed ragged array is the one built from its own rows (flat data and lengths are determined by the rows) -/
 theorem ofRows_rows {α : Type} (ra : RA α) (h : WF ra) : ofRows (rows ra) = ra := ofRows_rows' ra h
 
-/-- both constructors agree: flat data + lengths gives the same array as the nested rows -/
-theorem constructors_agree {α : Type} (rs : List (List α)) (hne : rs.flatten ≠ []) :
-    ofFlat rs.flatten (rs.map List.length) = .ok (ofRows rs) := by
-  simp only [ofFlat, if_neg hne, List.length_flatten, ne_eq, not_true_eq_false, if_false, ofRows]
+/-- both constructors agree (current code: `ofFlatF`, an array without any cell included): flat data + lengths gives the same array as the nested rows -/
+theorem constructors_agree {α : Type} (rs : List (List α)) :
+    ofFlatF rs.flatten (rs.map List.length) = .ok (ofRows rs) := by
+  simp only [ofFlatF, List.length_flatten, ne_eq, not_true_eq_false, if_false, ofRows]
 
-example : ofFlat [1, 2, 3, 4, 5] [3, 2] = .ok (ofRows [[1, 2, 3], [4, 5]]) := by decide
+example : ofFlatF [1, 2, 3, 4, 5] [3, 2] = .ok (ofRows [[1, 2, 3], [4, 5]]) := by decide
 
 /-- `starts[i]` is the sum of the lengths of the rows before `i` -/
 theorem starts_eq_prefix_sums (lens : List Nat) (i : Nat) (h : i < lens.length) :
@@ -136,6 +147,23 @@ theorem get_paired {α : Type} (ra : RA α) (h : WF ra) (fast : Bool) (l l2 : Li
     absE (getItemF ra fast (.two (.list l b) (.list l2 b2))) = specGet (rows ra) (.two (.list l b) (.list l2 b2)) :=
   get_paired_F ra h fast l l2 b b2 hlen
 
+/-- `a[[i…], [j]]`: a one-element column list is broadcast over the row list, as numpy does (model of the proposed repair, see header) -/
+theorem get_paired_broadcast_col {α : Type} (ra : RA α) (h : WF ra) (fast : Bool) (l : List Int) (b b2 : Bool) (j : Int)
+    (hl : l.length ≠ 1) :
+    absE (getItemF ra fast (.two (.list l b) (.list [j] b2))) = specGet (rows ra) (.two (.list l b) (.list [j] b2)) :=
+  get_paired_bcast_col_F ra h fast l b b2 j hl
+
+/-- `a[[i], [j…]]`: a one-element row list is broadcast over a non-empty column list -/
+theorem get_paired_broadcast_row {α : Type} (ra : RA α) (h : WF ra) (fast : Bool) (i : Int) (l2 : List Int) (b b2 : Bool)
+    (hl : l2.length ≠ 1) (hne : l2 ≠ []) :
+    absE (getItemF ra fast (.two (.list [i] b) (.list l2 b2))) = specGet (rows ra) (.two (.list [i] b) (.list l2 b2)) :=
+  get_paired_bcast_row_F ra h fast i l2 b b2 hl hne
+
+example : absE (getItemF (⟨[1, 2, 3, 4, 5], [3, 2]⟩ : RA Nat) false (.two (.list [0, 1] false) (.list [-1] false))) =
+    .ok (.arr [3, 5]) := by decide
+example : absE (getItemF (⟨[1, 2, 3, 4, 5], [3, 2]⟩ : RA Nat) false (.two (.list [0] false) (.list [2, 0] true))) =
+    .ok (.arr [3, 1]) := by decide
+
 theorem get_int_list {α : Type} (ra : RA α) (h : WF ra) (fast : Bool) (i : Int) (l : List Int) (b : Bool) :
     absE (getItemF ra fast (.two (.int i) (.list l b))) = specGet (rows ra) (.two (.int i) (.list l b)) :=
   get_int_list_F ra h fast i l b
@@ -205,6 +233,11 @@ example : iterF (⟨[1, 2, 3, 4, 5, 6], [3, 3]⟩ : RA Nat) true = .ok [[1, 2, 3
 
 Nothing below is about the current code. -/
 namespace PreFix
+
+/-- pre-fix `ofFlat` refused an empty flat array -/
+theorem constructors_agree {α : Type} (rs : List (List α)) (hne : rs.flatten ≠ []) :
+    ofFlat rs.flatten (rs.map List.length) = .ok (ofRows rs) := by
+  simp only [ofFlat, if_neg hne, List.length_flatten, ne_eq, not_true_eq_false, if_false, ofRows]
 
 /-- the row view `_array` is the list of rows, on the rectangular fast path (`reshape`) as well as via `partition_list` -/
 theorem array_view_eq_rows {α : Type} (ra : RA α) (h : WF ra) (fast : Bool) (hf : FastOK ra fast) :
